@@ -2,8 +2,8 @@
 # run_all.sh [tier]: every claimed property's check, one after the other, against /repo; summary lines in work/run_all.log
 cd "$(dirname "$(readlink -f "$0")")"
 T=${1:-quick}
-: > work/run_all.log
 mkdir -p work
+: > work/run_all.log
 for id in $(sort units/READY); do
   s=$(date +%s)
   VERIF_NO_REPLAY=${VERIF_NO_REPLAY:-} ./check $id --tier $T > work/run_all.$id.out 2>&1; rc=$?
